@@ -14,7 +14,11 @@ import (
 	"strings"
 
 	"go.pennock.tech/tabular"
+	"go.pennock.tech/tabular/csv"
+	"go.pennock.tech/tabular/html"
+	tjson "go.pennock.tech/tabular/json"
 	"go.pennock.tech/tabular/length"
+	"go.pennock.tech/tabular/markdown"
 	"go.pennock.tech/tabular/texttable"
 	"go.pennock.tech/tabular/texttable/decoration"
 )
@@ -32,11 +36,15 @@ var decFieldNames = []string{
 // library's EmptyDecoration), or a custom one built from Fields (from NoBox()
 // when Boxless) and then Populate()d unless NoPopulate.
 type DecSpec struct {
-	Name       string            `json:"name,omitempty"`
-	Fields     map[string]string `json:"fields,omitempty"`
-	Custom     bool              `json:"custom,omitempty"`
-	Boxless    bool              `json:"boxless,omitempty"`
-	NoPopulate bool              `json:"no_populate,omitempty"`
+	Name   string            `json:"name,omitempty"`
+	Fields map[string]string `json:"fields,omitempty"`
+	Custom bool              `json:"custom,omitempty"`
+	// Base: a custom decoration derived from the registered one of this name
+	// (an already populated value): Fields are set on it - an empty value
+	// clears the field - and Populate re-derives what was cleared.
+	Base       string `json:"base,omitempty"`
+	Boxless    bool   `json:"boxless,omitempty"`
+	NoPopulate bool   `json:"no_populate,omitempty"`
 }
 
 type TextSpec struct {
@@ -49,6 +57,63 @@ type TextSpec struct {
 	// Nest: while the judged render is writing, another (independent) table is
 	// rendered from inside the writer's Write method.
 	Nest *NestSpec `json:"nest,omitempty"`
+	// Others: further wrappers made on the SAME table right after the text
+	// wrapper (1 markdown, 2 csv, 3 html, 4 json, 5 a second text wrapper with
+	// another decoration); with RenderOthers they are rendered (result
+	// discarded) before every render of the text wrapper.  Only the text
+	// wrapper's output is judged, and it must not depend on them.
+	Others       []int `json:"others,omitempty"`
+	RenderOthers bool  `json:"render_others,omitempty"`
+	// Long: rows that end up holding MORE cells than the table has columns.
+	// Before anything else is built: row := t.AppendNewRow(); row.Add(Cells...);
+	// other.AddRow(row) (a second table); row.Add(Extra...) - the other table
+	// learns of the new columns, t does not.  The extra cells must not be shown
+	// and must not widen anything.
+	Long []LongRow `json:"long,omitempty"`
+}
+
+type LongRow struct {
+	Cells []ItemSpec `json:"cells"`
+	Extra []ItemSpec `json:"extra"`
+}
+
+func buildLongRows(t *tabular.ATable, long []LongRow) {
+	for _, lr := range long {
+		row := t.AppendNewRow()
+		for _, it := range makeItems(lr.Cells) {
+			row.Add(tabular.NewCell(it))
+		}
+		other := tabular.New()
+		other.AddRow(row)
+		for _, it := range makeItems(lr.Extra) {
+			row.Add(tabular.NewCell(it))
+		}
+	}
+}
+
+// longView puts the long rows (all their cells) in front of the spec's view;
+// the column count only counts the cells added while the row was t's alone.
+func longView(ts TextSpec, v *View) {
+	if len(ts.Long) == 0 {
+		return
+	}
+	var front []*[]VCell
+	for _, lr := range ts.Long {
+		all := append(append([]ItemSpec{}, lr.Cells...), lr.Extra...)
+		one := TableSpec{Rows: []RowSpec{{Cells: all}}}
+		ov := one.SpecView()
+		specSizes(one, &ov)
+		front = append(front, ov.Rows[0])
+		if len(lr.Cells) > v.NCols {
+			v.NCols = len(lr.Cells)
+		}
+	}
+	v.Rows = append(front, v.Rows...)
+	for i := len(v.Align); i <= v.NCols; i++ {
+		// columns the long rows created: they exist when the final properties are set
+		v.Align = append(v.Align, ts.Table.Align[i])
+		v.Skip = append(v.Skip, ts.Table.Skip[i])
+	}
 }
 
 // HookSpec: When 0 add, 1 render-precell, 2 render, 3 render-postcell;
@@ -132,9 +197,35 @@ func registerHooks(t *tabular.ATable, hooks []HookSpec) {
 // textW is the wrapper handed to BuildRenderW: the TextTable itself, or the
 // TextTable rendering into a writer that renders another table from inside Write.
 type textW struct {
-	tt   *texttable.TextTable
-	d    decoration.Decoration
-	nest *NestSpec
+	tt     *texttable.TextTable
+	d      decoration.Decoration
+	nest   *NestSpec
+	others []func() (string, error)
+}
+
+func makeOthers(t tabular.Table, kinds []int) []func() (string, error) {
+	var out []func() (string, error)
+	for _, k := range kinds {
+		switch k {
+		case 1:
+			out = append(out, markdown.Wrap(t).Render)
+		case 2:
+			out = append(out, csv.Wrap(t).Render)
+		case 3:
+			out = append(out, html.Wrap(t).Render)
+		case 4:
+			out = append(out, tjson.Wrap(t).Render)
+		case 5:
+			out = append(out, texttable.Wrap(t).SetDecoration(decoration.ASCIIBoxSimple()).Render)
+		}
+	}
+	return out
+}
+
+func (w *textW) runOthers() {
+	for _, f := range w.others {
+		capture(f) // whatever they do (error, panic) is their own properties' concern
+	}
 }
 
 type nestWriter struct {
@@ -165,6 +256,7 @@ func (w *textW) renderNested() {
 }
 
 func (w *textW) Render() (string, error) {
+	w.runOthers()
 	if w.nest == nil {
 		return w.tt.Render()
 	}
@@ -176,6 +268,7 @@ func (w *textW) Render() (string, error) {
 }
 
 func (w *textW) RenderTo(x io.Writer) error {
+	w.runOthers()
 	if w.nest == nil {
 		return w.tt.RenderTo(x)
 	}
@@ -257,6 +350,7 @@ func specSizes(ts TableSpec, v *View) {
 type decDump struct {
 	fields  []string
 	boxless bool
+	extra   []string // fields of the library's struct beyond the 22 glyphs and isBoxless
 }
 
 func dumpDecoration(d decoration.Decoration) decDump {
@@ -274,9 +368,19 @@ func dumpDecoration(d decoration.Decoration) decDump {
 		panic("decoration has no field isBoxless")
 	}
 	out.boxless = b.Bool()
-	// any other string field would be unknown to the model
-	if rv.NumField() != len(decFieldNames)+1 {
-		panic(fmt.Sprintf("decoration has %d fields, the model knows %d", rv.NumField(), len(decFieldNames)+1))
+	// Fields the model does not know: a further STRING field could be a glyph
+	// that reaches the output, which the model cannot follow (the case then
+	// shows as model <> implementation wherever it matters); fields of other
+	// kinds (flags, counters) are the library's private business and are
+	// judged only through what is rendered.
+	known := map[string]bool{"isBoxless": true}
+	for _, n := range decFieldNames {
+		known[n] = true
+	}
+	for i := 0; i < rv.NumField(); i++ {
+		if f := rv.Type().Field(i); !known[f.Name] {
+			out.extra = append(out.extra, f.Name+":"+f.Type.Kind().String())
+		}
 	}
 	return out
 }
@@ -307,6 +411,9 @@ func (ds DecSpec) build() (decoration.Decoration, *decDump) {
 	var d decoration.Decoration
 	if ds.Boxless {
 		d = decoration.NoBox()
+	}
+	if ds.Base != "" {
+		d = decoration.Named(ds.Base)
 	}
 	rv := reflect.ValueOf(&d).Elem()
 	for k, val := range ds.Fields {
@@ -342,6 +449,28 @@ var textAtoms = []string{
 	"a\nbb", "x\n\ny", "one\ntwo\nthree", "日\nab\ń", // multi-line
 	"a\n", "a\n\n", "\n", "\n\n", "", // trailing newlines, empty
 	"\xff", "\xe6\x97", "\x00", // invalid UTF-8, NUL
+	// many bytes per display cell: long ZWJ sequences, keycaps, stacked marks, runs of zero-width characters
+	"\U0001F468\u200d\U0001F469\u200d\U0001F467\u200d\U0001F466",
+	"1\ufe0f\u20e3", "#\ufe0f\u20e3*\ufe0f\u20e3",
+	"e\u0301\u0302\u0303\u0304\u0305\u0306\u0307\u0308",
+	"\U0001F9D1\U0001F3FD\u200d\U0001F91D\u200d\U0001F9D1\U0001F3FB",
+}
+
+// texts of few display cells and very many bytes
+func denseTexts() []string {
+	out := []string{
+		"\U0001F468\u200d\U0001F469\u200d\U0001F467\u200d\U0001F466",
+		"1\ufe0f\u20e3",
+		"\U0001F9D1\U0001F3FD\u200d\U0001F91D\u200d\U0001F9D1\U0001F3FB",
+		"\U0001F3F4\U000E0067\U000E0062\U000E0073\U000E0063\U000E0074\U000E007F", // tag sequence
+	}
+	for _, n := range []int{8, 16, 40} {
+		out = append(out, "e"+strings.Repeat("\u0301", n))
+		out = append(out, "x"+strings.Repeat("\u200b", n))
+		out = append(out, strings.Repeat("\u200d", n))
+	}
+	out = append(out, "a\n"+"e"+strings.Repeat("\u0308", 12))
+	return out
 }
 
 // lines whose rune count, byte count and display width are ordered
@@ -606,6 +735,24 @@ func randDecoration(r *RNG) DecSpec {
 	return ds
 }
 
+// a custom decoration derived from a registered (already populated) one
+func derivedDecoration(r *RNG, reg []DecSpec) DecSpec {
+	base := pick(r, reg).Name
+	ds := DecSpec{Custom: true, Base: base, Fields: map[string]string{}}
+	for _, n := range decFieldNames {
+		switch {
+		case r.Pct(25):
+			ds.Fields[n] = "" // cleared, to be re-derived
+		case r.Pct(8):
+			ds.Fields[n] = pick(r, glyphAtoms)
+		}
+	}
+	if r.Pct(10) {
+		ds.NoPopulate = true
+	}
+	return ds
+}
+
 func registeredDecs() []DecSpec {
 	var out []DecSpec
 	for _, n := range decoration.RegisteredDecorationNames() {
@@ -652,6 +799,7 @@ func runText(ts TextSpec) textRun {
 	// read back from the table under test
 	tr.view = ts.Table.SpecView()
 	specSizes(ts.Table, &tr.view)
+	longView(ts, &tr.view)
 	keys := map[string]bool{}
 	for _, c := range viewAllCells(tr.view) {
 		addLineKeys(keys, c.Text)
@@ -670,8 +818,14 @@ func runText(ts TextSpec) textRun {
 		// every stage of the spec and the complete one at the end (the
 		// observed outcome); without stages it is made after the build
 		registerHooks(t, ts.Hooks)
+		buildLongRows(t, ts.Long)
 		o := ts.Table.BuildRenderW(t, func(t tabular.Table) RenderW {
-			return &textW{tt: texttable.Wrap(t).SetDecoration(d), d: d, nest: ts.Nest}
+			w := &textW{tt: texttable.Wrap(t).SetDecoration(d), d: d, nest: ts.Nest}
+			others := makeOthers(t, ts.Others) // made after the text wrapper, on the same table
+			if ts.RenderOthers {
+				w.others = others
+			}
+			return w
 		})
 		if o.Kind == "panic" {
 			anyPanic = true
@@ -746,15 +900,8 @@ func runText(ts TextSpec) textRun {
 			tr.domain = false
 		}
 	}
-	// rows longer than the column count are not views the core produces (wf_view)
-	for _, r := range tr.view.Rows {
-		if r != nil && len(*r) > tr.view.NCols {
-			tr.domain = false
-		}
-	}
-	if tr.view.Header != nil && len(*tr.view.Header) > tr.view.NCols {
-		tr.domain = false
-	}
+	// rows longer than the column count (a row extended through a second table)
+	// are inside the statement: the extra cells are not shown (c03_refines_any_rows)
 	tr.coq = coqHead + cqBool(tr.domain) + ")"
 	switch {
 	case anyPanic && heightBelow:
@@ -923,7 +1070,16 @@ func textSpecSize(ts TextSpec) int {
 	for _, d := range ts.Decs {
 		n += len(d.Fields)
 	}
-	n += 3 * len(ts.Hooks)
+	n += 3*len(ts.Hooks) + 2*len(ts.Others)
+	for _, lr := range ts.Long {
+		n += 2 + len(lr.Cells) + len(lr.Extra)
+		for _, c := range append(append([]ItemSpec{}, lr.Cells...), lr.Extra...) {
+			n += len(c.B)
+		}
+	}
+	if ts.RenderOthers {
+		n++
+	}
 	if ts.Nest != nil {
 		n += 3
 	}
@@ -1003,6 +1159,29 @@ func textCaseOut(ts TextSpec, tr textRun) CaseOut {
 	}
 	if ts.Nest != nil {
 		tags = append(tags, "history=other-table-rendered-during-write")
+	}
+	if len(ts.Others) > 0 {
+		tags = append(tags, "history=other-wrappers-on-same-table-after-text-wrapper")
+	}
+	for _, row := range tr.view.Rows {
+		if row != nil && len(*row) > tr.view.NCols {
+			tags = append(tags, "row-longer-than-ncols(extended-through-a-second-table)")
+		}
+	}
+	for i, d := range ts.Decs {
+		if d.Base != "" {
+			tags = append(tags, "dec=derived-from-registered-then-populate")
+		}
+		if i < len(tr.decs) && len(tr.decs[i].extra) > 0 {
+			tags = append(tags, "dec=library-struct-has-fields-unknown-to-model")
+		}
+	}
+	for _, c := range viewAllCells(tr.view) {
+		for _, l := range length.Lines(c.Text) {
+			if w := length.StringCells(l); len(l) > 4*(w+5) {
+				tags = append(tags, "text=more-than-4-bytes-per-cell-of-a-one-column-line")
+			}
+		}
 	}
 	if len(ts.Table.Mutations) > 0 {
 		tags = append(tags, "history=render-mutate-update-render")
@@ -1096,6 +1275,31 @@ func shrinkTextJSON(spec json.RawMessage) []json.RawMessage {
 	if ts.Nest != nil {
 		c := clone()
 		c.Nest = nil
+		out = append(out, mustJSON(c))
+	}
+	for i, lr := range ts.Long {
+		c := clone()
+		c.Long = append(append([]LongRow{}, ts.Long[:i]...), ts.Long[i+1:]...)
+		out = append(out, mustJSON(c))
+		if len(lr.Extra) > 1 {
+			c := clone()
+			c.Long[i].Extra = lr.Extra[:len(lr.Extra)-1]
+			out = append(out, mustJSON(c))
+		}
+		if len(lr.Cells) > 0 {
+			c := clone()
+			c.Long[i].Cells = lr.Cells[:len(lr.Cells)-1]
+			out = append(out, mustJSON(c))
+		}
+	}
+	for i := range ts.Others {
+		c := clone()
+		c.Others = append(append([]int{}, ts.Others[:i]...), ts.Others[i+1:]...)
+		out = append(out, mustJSON(c))
+	}
+	if ts.RenderOthers {
+		c := clone()
+		c.RenderOthers = false
 		out = append(out, mustJSON(c))
 	}
 	if ts.Table.Header2 != nil {
